@@ -52,7 +52,7 @@ def default_profile(rng, tier="quick"):
 
 
 #: dimensions added on top of the classic program family (nested for / if / calls / arithmetic); each is drawn per case
-EXOTIC = ("partial", "local_callee", "switches", "multiblock", "while_loops", "state_loops", "head_launch", "stale_links", "memory",
+EXOTIC = ("const_conds", "partial", "local_callee", "switches", "multiblock", "while_loops", "state_loops", "head_launch", "stale_links", "memory",
           "next_iv", "index_vals", "relaunch", "pure_loop")
 
 
@@ -223,7 +223,7 @@ class AccfgGen:
 
     def if_node(self, scope, depth, inloop):
         r, p = self.r, self.p
-        node = {"k": "if", "cond": r.choice(["%b0", "%b1", "%b2"])}
+        node = {"k": "if", "cond": r.choice(["%b0", "%b1", "%b2"] + (["%ctrue", "%cfalse"] if p.get("const_conds") else []))}
         node["then"] = self.stmts(r.randint(1, 2), list(scope), depth + 1, inloop)
         if p.get("nest_passthrough") and depth + 1 < p["max_depth"] + 1 and r.random() < p["nest_passthrough"]:
             # the else path is itself conditional with an empty (pass-through) branch: the state after the if is the
@@ -536,6 +536,8 @@ def emit(ast, acc_names=None, vty="i32", decls=()) -> str:
         e(2, f"%c{c} = arith.constant {c} : index")
     for j in range(ast.get("consts", 0)):
         e(2, f"%k{j} = arith.constant {1000 + 7 * j} : {vty}")
+    e(2, "%ctrue = arith.constant true")
+    e(2, "%cfalse = arith.constant false")
     e(2, f"%one = arith.constant 1 : {vty}")
     e(2, f"%zero = arith.constant 0 : {vty}")
     if ast.get("memory"):
